@@ -44,3 +44,19 @@ pub fn tap_debug() -> i32 {
     println!("{:?}", base.circ.insts);
     0
 }
+
+pub fn wide_stats() -> i32 {
+    use proptest::strategy::{Strategy, ValueTree};
+    use proptest::test_runner::TestRunner;
+    let mut r = TestRunner::deterministic();
+    let s = crate::circ::gen_circuit(crate::circ::CircParams::wide(2, 4));
+    let mut v = vec![];
+    for _ in 0..200 {
+        let c = s.new_tree(&mut r).unwrap().current();
+        let u: std::collections::BTreeSet<_> = c.output_regs.iter().collect();
+        v.push((u.len(), c.output_regs.len(), c.num_inputs(), c.insts.len(), c.max_reg_count));
+    }
+    v.sort();
+    println!("unique>64: {} of 200; median {:?}; max {:?}", v.iter().filter(|x| x.0 > 64).count(), v[100], v[199]);
+    0
+}
